@@ -76,7 +76,7 @@ class SymInt:
     def __floordiv__(self, o):
         if isinstance(o, int) and o > 0:
             from .dec import fdiv
-            return SymInt(fdiv(self.e, o))
+            return SymInt(fdiv(self.e, o).z())
         return NotImplemented
 
     def __mod__(self, o):
@@ -208,7 +208,8 @@ class SymReal:
         n, d = ctx.fresh("rn"), ctx.fresh("rd")
         ctx.add(z3.And(d > 0, z3.ToReal(n) == self.e * z3.ToReal(d)))
         ctx.inexact = True
-        return SymDec(n, 0, d)
+        from .lin import Lin
+        return SymDec(Lin.atom(n), 0, Lin.atom(d))
 
     def __repr__(self):
         return "SymReal(%s)" % (self.e,)
